@@ -125,6 +125,35 @@ func writerTable(c *Check, pkgRel, recv, name string) ([]fieldWT, bool) {
 	if fd == nil {
 		return nil, false
 	}
+	return writerTableFD(c, pkgRel, fd, info, 0)
+}
+
+// newHelperDecl: the declaration of a function or method called at call when it
+// is a helper that did not exist when the rules were confirmed (unknownHelper).
+func newHelperDecl(c *Check, info *types.Info, call *ast.CallExpr) *ast.FuncDecl {
+	var id *ast.Ident
+	switch f := call.Fun.(type) {
+	case *ast.Ident:
+		id = f
+	case *ast.SelectorExpr:
+		id = f.Sel
+	}
+	if id == nil {
+		return nil
+	}
+	obj, ok := info.Uses[id].(*types.Func)
+	if !ok {
+		return nil
+	}
+	sf := c.P.SSA.FuncValue(obj)
+	if sf == nil || !unknownHelper(sf, 0) {
+		return nil
+	}
+	fd, _ := sf.Syntax().(*ast.FuncDecl)
+	return fd
+}
+
+func writerTableFD(c *Check, pkgRel string, fd *ast.FuncDecl, info *types.Info, depth int) ([]fieldWT, bool) {
 	var out []fieldWT
 	ok := true
 	// table literals: var -> list of first-field constants
@@ -205,6 +234,15 @@ func writerTable(c *Check, pkgRel, recv, name string) ([]fieldWT, bool) {
 		call, isCall := n.(*ast.CallExpr)
 		if !isCall {
 			return true
+		}
+		// a new helper (function or method) that writes tags with constant
+		// field numbers is part of this writer
+		if hfd := newHelperDecl(c, info, call); hfd != nil && hfd != fd && hfd.Body != nil && depth < 3 {
+			sub, subOK := writerTableFD(c, pkgRel, hfd, info, depth+1)
+			out = append(out, sub...)
+			if !subOK {
+				ok = false
+			}
 		}
 		id, isId := call.Fun.(*ast.Ident)
 		if !isId {
@@ -716,6 +754,9 @@ func ruleNoPanic(c *Check, rule string) {
 		if !hasPanic {
 			continue
 		}
+		if unknownHelper(f, 0) && hasRepoCaller(c.P, f) {
+			continue // a new helper: its panic is judged in the context of each caller (it is walked as part of them)
+		}
 		w := Walk(c.P, f, WalkConfig{})
 		if w.Err != nil {
 			c.Undecided(rule, QualName(f), w.Err.Error(), "")
@@ -943,6 +984,10 @@ func ruleAppendSizes(c *Check, rule string) {
 					parts := splitTop(e.Val[len("slice(") : len(e.Val)-1])
 					if len(parts) >= 3 && parts[2] != "" {
 						v, err := EvalTermR(parts[2], b, res)
+						if err != nil {
+							c.Undecided(rule, name+"/reslice", "cannot evaluate the new length of the buffer "+parts[2]+": "+err.Error(), c.P.InstrPos(e.Instr))
+							return
+						}
 						if err == nil {
 							x := v.U - cp[0]
 							reslice = &x
@@ -951,7 +996,11 @@ func ruleAppendSizes(c *Check, rule string) {
 								mk := splitTop(strings.TrimSuffix(strings.TrimPrefix(parts[0][:strings.LastIndex(parts[0], ")@")+1], "makeslice("), ")"))
 								if len(mk) == 2 {
 									capv, err := EvalTermR(mk[1], b, res)
-									if err == nil && capv.U < v.U {
+									if err != nil {
+										c.Undecided(rule, name+"/grow", "cannot evaluate the capacity of the grown buffer "+mk[1]+": "+err.Error(), c.P.InstrPos(e.Instr))
+										return
+									}
+									if capv.U < v.U {
 										bad++
 										c.Bad(rule, fmt.Sprintf("%s/grow:len=%d,cap=%d", name, cp[0], cp[1]), fmt.Sprintf("after growing, the buffer capacity %d is below the %d bytes needed", capv.U, v.U), c.P.InstrPos(e.Instr), nil)
 									}
